@@ -67,6 +67,9 @@ macro_rules! hist_property {
                 let cases = ctx.tier.pick($quick_cases, $thorough_cases);
                 run_proptest(ctx, hist::history_strategy(PROFILE, max_ops), cases, 1, |h, stats| run_one(h, stats, nt))
             }
+            fn run_fuzz(ctx: &ShardCtx) -> ShardResult {
+                crate::engine::run_fuzz(ctx, "hist_target", $id)
+            }
             fn run_corpus(ctx: &ShardCtx) -> ShardResult {
                 run_list(ctx, corpus($id).into_iter(), |h, stats| run_one(h, stats, nt))
             }
@@ -77,6 +80,8 @@ macro_rules! hist_property {
                         SubCheck { name: "corpus", shards: |_| 1, run: run_corpus, replay: replay_hist,
                             rule: "committed regression histories from /verif/corpus (shrunk failures of seeded mutations), replayed first", exe_env: None },
                         SubCheck { name: "histories", shards: |t: Tier| t.pick(8, 16), run, replay: replay_hist, rule: $rule, exe_env: None },
+                        SubCheck { name: "fuzz", shards: |t: Tier| t.pick(0, 4), run: run_fuzz, replay: replay_hist,
+                            rule: "thorough tier only: libFuzzer (cargo-fuzz, AddressSanitizer) campaigns of 300000 executions each on a target that decodes bytes (arbitrary::Unstructured) into the same History type and runs the same interpreter and oracles; non-trivial = index reuse or a stale access on an occupied index; counts come from the target", exe_env: None },
                     ],
                     crash_is_violation: $crash,
                     assumptions: &[
